@@ -466,8 +466,8 @@ def remap_histories(ctx, rng):
         nsteps += len(hist)
         for i, clause in sorted(failed.get(hid, ())):
             st, obs = hist[i - 1], r["steps"][i - 1]
-            if obs.get("fresh"):
-                raise Machinery("the alphabet contains a call that fails on fresh grids: %s %s" % (st["call"], obs["err"]))
+            # (a call of the alphabet that raises even on freshly built grids is a Raises verdict too: every
+            # call of the alphabet is admissible on these grids - k <= 3 <= every element count)
             calls = [s["call"] for s in hist[:i]]
             key = "remap-hist:" + ";".join("%s/%s/%s/%s/%s/d%d" % (c["level"], c["kind"], c["remapTo"], c["coord"], c["meth"], c["dest"]) for c in calls)
             ctx.violation(key, clause, detail={"step": i, "differs_from_previous_call_in": st["diff"], "wrong_variables": obs.get("bad_kinds"), "error": obs.get("err")}, replay={"source": "%s/r%d/c%d" % H_SRC, "destinations": {str(d): "%s/r%d/c%d" % t for d, t in H_DST.items()}, "calls": calls, "data": "rng(kind index + 5).uniform(-3, 3, (2, n))"}, sig={"step": i, "diff": "+".join(st["diff"]) or "none", "level": st["call"]["level"]})
